@@ -226,7 +226,8 @@ PROPS["C10"] = {
     "pkg": "c10", "level": "exploration",
     "technique": "property-based testing (rapid) of all 15 proof systems: honest statements built from boundary-lattice witnesses must verify; single perturbations of every "
                  "public input, of the prover context (session tag, party id, extra transcript item) and substitution of every proof field by the same field of another "
-                 "valid proof (same and different statement, via reflection) must not verify",
+                 "valid proof (same and different statement, via reflection; random choice of the field plus a sweep that visits every proof field and public input of every system once) must not verify; forged proofs whose Pedersen equation holds for every challenge (S = 1) "
+                 "and whose response is far out of range must be rejected without a panic",
     "level_text": "Completeness on the documented witness ranges (0, +-1, +-(2^l-1), +-(2^l'-1), q-1, random) and binding to statement, context and transcript, checked as an "
                   "executable accept/reject oracle per generated (system, witness class, perturbation, field). A panic inside Verify counts as rejection (counted).",
     "level_note": "Black-box: a challenge that omits an input which the verification equations bind anyway is not observable. Range-soundness (oversized responses with "
@@ -239,10 +240,12 @@ PROPS["C10"] = {
         "quick": [
             {"run": "^TestCheap$", "checks": 1600, "shards": 16},
             {"run": "^TestCostly$", "checks": 320, "shards": 16},
+            {"run": "^TestFieldSweep$", "shards": 16},
         ],
         "thorough": [
             {"run": "^TestCheap$", "checks": 16000, "shards": 16},
             {"run": "^TestCostly$", "checks": 3200, "shards": 16, "timeout": 7000},
+            {"run": "^TestFieldSweep$", "shards": 16},
         ],
     },
 }
@@ -250,7 +253,7 @@ PROPS["C10"] = {
 PROPS["C13"] = {
     "pkg": "c13", "level": "exploration",
     "technique": "property-based testing (rapid) of every OT layer driven directly (random, correlated, extended, additive OT, multiplication) with the defining relation of "
-                 "each layer as oracle (internal outputs read through reflection), boundary scalars and degenerate choice vectors, every batch size from 1 to 70 bytes, setup reuse (in order, answered in reverse order, and "
+                 "each layer as oracle (internal outputs read through reflection), boundary scalars and degenerate choice vectors, every batch size from 1 to 70 bytes plus enumerated large batches around 2^8 and 2^16 transfers (up to 65600), setup reuse (in order, answered in reverse order, and "
                  "honest uses after a rejected altered request), and single-field "
                  "alterations of every OT message with the oracle 'error on the checking side or still the correct product'",
     "level_text": "Layer relations are checked exactly for every batch entry: chosen pad, t_j = q_j xor c_j*Delta, VChoices[j] = V_{c_j}[j], additive shares summing to c_j*alpha_k, "
@@ -263,11 +266,13 @@ PROPS["C13"] = {
         "quick": [
             {"run": "^TestRandomOT$", "checks": 1500, "shards": 2},
             {"run": "^TestLayers$", "checks": 480, "shards": 6},
+            {"run": "^TestLargeBatches$", "shards": 4},
             {"run": "^TestMultiply$", "checks": 640, "shards": 8},
         ],
         "thorough": [
             {"run": "^TestRandomOT$", "checks": 60000, "shards": 2},
             {"run": "^TestLayers$", "checks": 24000, "shards": 6},
+            {"run": "^TestLargeBatches$", "shards": 4},
             {"run": "^TestMultiply$", "checks": 32000, "shards": 8},
         ],
     },
@@ -369,6 +374,7 @@ PROPS["C15"] = {
         "quick": [
             {"run": "^TestCorrupt$", "checks": 24000, "shards": 8},
             {"run": "^TestRoundTrip$", "checks": 320, "shards": 8},
+            {"run": "^TestRoundTripMany$", "shards": 2},
             {"run": "^TestWireRoundTrip$", "checks": 200, "shards": 2},
             {"run": "^TestDuplicateParty$", "shards": 1},
             {"run": "^TestWrongSizeModulus$", "shards": 1},
@@ -377,6 +383,7 @@ PROPS["C15"] = {
             {"fuzz": "FuzzRestore", "fuzztime": "180s", "workers": 8, "timeout": 600},
             {"run": "^TestCorrupt$", "checks": 1200000, "shards": 12},
             {"run": "^TestRoundTrip$", "checks": 2400, "shards": 12},
+            {"run": "^TestRoundTripMany$", "shards": 2},
             {"run": "^TestWireRoundTrip$", "checks": 8000, "shards": 4},
             {"run": "^TestDuplicateParty$", "shards": 1},
             {"run": "^TestWrongSizeModulus$", "shards": 1},
@@ -416,8 +423,8 @@ PROPS["C04"] = {
     "pkg": "c04", "level": "fault_enumeration",
     "technique": "fault injection through the real handlers on the deterministic simulator, driven by rapid: (1) wire-level value alterations, value copies and whole-message "
                  "substitutions of every field of every message kind of every protocol by one cheater, (2) state-level deviations of a CMP presigner applied through a round "
-                 "proxy (wrong gamma, k, x, delta share, chi share, sigma share) in the offline, full and online variants, (3) one Paillier ciphertext of one direct message replaced by a "
-                 "well-formed ciphertext of the plaintext plus one (keygen/refresh share, MtA D/F); oracles: O1 no honest party is ever named by a "
+                 "proxy (wrong gamma, k, x, delta share, chi share, sigma share off by one or exactly negated) in the offline, full and online variants, (3) one Paillier ciphertext of one direct message replaced by a "
+                 "well-formed ciphertext of the plaintext plus one (keygen/refresh share, MtA D/F) or of the negated plaintext (keygen/refresh share); oracles: O1 no honest party is ever named by a "
                  "self-detected error, O2 catalogued verified-on-receipt fields are attributed to exactly the sender, O3 every honest signer singles out the deviating presigner",
     "level_text": "The cheater is run by the library's own handler (authentic headers, queues and echo-broadcast hashes); its outgoing messages are altered at one CBOR leaf "
                   "(another valid point/scalar/number, or the same field of another message) or its round state is edited around Finalize. Relayed abort notices are excluded "
@@ -456,7 +463,7 @@ PROPS["C03"] = {
     "technique": "fault injection through the real handlers on the deterministic simulator, driven by rapid and (thorough) a systematic walk over every field: one participant's "
                  "outgoing messages are altered at one CBOR leaf (another valid value, the same field of another recipient's / sender's message) or replaced by the message "
                  "meant for another recipient or round, or the presigner deviates at state level, or one Paillier ciphertext of one direct message is replaced by a well-formed "
-                 "ciphertext of the plaintext plus one (keygen share, MtA D/F); oracle = no honest party finishes with a result that an independent verifier "
+                 "ciphertext of the plaintext plus one (keygen share, MtA D/F) or of the negated plaintext q - x (keygen share), or the last-round signature share is the exact negation; oracle = no honest party finishes with a result that an independent verifier "
                  "rejects or that is inconsistent with the other honest finishers",
     "level_text": "All protocols (cmp keygen/refresh/sign/presign offline, full, online; frost keygen/refresh/sign in both variants; doerner keygen/refresh/sign), n in 2..4 "
                   "(CMP 2..3), every cheater position, abort notices delivered or lost, generated schedules. Honest finishers' signatures are verified with the reference "
@@ -569,6 +576,7 @@ PROPS["C09"] = {
         "quick": [
             {"run": "^TestCommitContext$", "checks": 3000, "shards": 1},
             {"run": "^TestTags$", "checks": 2400, "shards": 12},
+            {"run": "^TestTagsWide$", "shards": 3},
             {"run": "^TestReplayCheap$", "checks": 600, "shards": 4},
             {"run": "^TestReplayCMP$", "checks": 4, "shards": 4, "timeout": 2400},
             {"run": "^TestImpersonate$", "checks": 600, "shards": 2},
@@ -577,6 +585,7 @@ PROPS["C09"] = {
         "thorough": [
             {"run": "^TestCommitContext$", "checks": 200000, "shards": 2},
             {"run": "^TestTags$", "checks": 6000, "shards": 12},
+            {"run": "^TestTagsWide$", "shards": 3},
             {"run": "^TestReplayCheap$", "checks": 30000, "shards": 6},
             {"run": "^TestReplayCMP$", "checks": 160, "shards": 16, "timeout": 9000},
             {"run": "^TestImpersonate$", "checks": 30000, "shards": 4},
